@@ -22,7 +22,11 @@ UNSUPPORTED = {   # serde entries ts-rs does not support: (tokens, class)
     "bound(ser)": ([I("bound"), G(I("serialize"), PU("="), S("T: Clone"))], "known_key_other_form"),
     "default=path": ([I("default"), PU("="), S("path")], "default_path"),
     "default": ([I("default")], "default_bare"),
+    "crate": ([I("crate"), PU("="), S("serde")], "kv"),          # a keyword as key
 }
+# keys only `#[ts(..)]` knows, per position: their presence must not change how the serde spelling of the other keys is read
+TS_ONLY = {"struct": [[I("type"), PU("="), S("string")], [I("export")]], "enum": [[I("as"), PU("="), S("Other")], [I("export_to"), PU("="), S("x/")]],
+           "variant": [[I("type"), PU("="), S("string")], [I("inline")]], "field": [[I("type"), PU("="), S("string")], [I("as"), PU("="), S("Other")], [I("inline")], [I("optional")]]}
 ITEM = {"struct": "{A} struct S {{ a: i32 }}", "enum": "{A} enum E {{ V {{ x_y: i32 }}, W }}", "variant": "enum E {{ {A} V {{ x_y: i32 }}, W }}",
         "field": "struct S {{ {A} a: Option<i32>, b: u8 }}"}
 
@@ -78,6 +82,9 @@ def cases(ctx):
             out.append(("trailing_comma:ts", pos, [join(es) + [PU(",")]], [], ([join(es)], [])))
             # a list that cannot be parsed as a whole (here: made unparseable by an integer where a key is expected) next to a good list
             out.append(("bad_list_next_to_good", pos, [], [[{"o": "5"}], join(es)], ([], [join(es)])))
+            # a ts-only key on the same item: the serde spelling of the other keys must still be read like the ts spelling
+            for tso in TS_ONLY[pos]:
+                out.append((f"next_to_ts_only:{tso[0]['i']}", pos, [tso], [join(es)], ([tso, join(es)], [])))
             # unsupported entries at every position of the list
             for uname, (utoks, ucls) in UNSUPPORTED.items():
                 if uname == "deny_unknown_fields" and pos != "struct":
